@@ -1,4 +1,4 @@
-use crate::wal::block::{Block, Metadata};
+use crate::wal::block::{Block, Metadata, decode_metadata};
 use crate::wal::config::{
     DEFAULT_BLOCK_SIZE, FsyncSchedule, MAX_FILE_SIZE, PREFIX_META_SIZE, debug_print,
 };
@@ -15,7 +15,6 @@ use super::background::start_background_workers;
 use super::reader::Reader;
 use super::topic_clean::{CleanMarkerStore, TopicCleanTracker};
 use super::writer::Writer;
-use rkyv::Deserialize;
 
 #[derive(Clone, Copy, Debug)]
 pub enum ReadConsistency {
@@ -341,16 +340,9 @@ impl Walrus {
                     next_block_id += 1;
                     continue;
                 }
-                let mut aligned = rkyv::AlignedVec::with_capacity(meta_len);
-                aligned.extend_from_slice(&meta_buf[2..2 + meta_len]);
-                // SAFETY: `aligned` was constructed from a bounded metadata slice
-                // read from our file; alignment is ensured by `AlignedVec`.
-                // SAFETY: `aligned` is built from bounded bytes inside the block,
-                // copied into `AlignedVec` ensuring alignment for rkyv.
-                let archived = unsafe { rkyv::archived_root::<Metadata>(&aligned[..]) };
-                let md: Metadata = match archived.deserialize(&mut rkyv::Infallible) {
-                    Ok(m) => m,
-                    Err(_) => {
+                let md: Metadata = match decode_metadata(&meta_buf[2..2 + meta_len]) {
+                    Some(m) => m,
+                    None => {
                         break;
                     }
                 };
